@@ -774,6 +774,15 @@ def _uninitialised(prog, cg, chk, U5):
                 b = strip(children(x)[0])
                 if b.get('kind') == 'DeclRefExpr':
                     member_bases.add(id(b))
+            # the left-hand side of `x = <value>;` is written, not used
+            lhs_ = None
+            if x.get('kind') == 'BinaryOperator' and x.get('opcode') == '=':
+                lhs_ = strip(children(x)[0])
+            elif x.get('kind') == 'CXXOperatorCallExpr' and len(children(x)) > 2 and \
+                    (strip(children(x)[0]).get('referencedDecl') or {}).get('name') == 'operator=':
+                lhs_ = strip(children(x)[1])
+            if lhs_ is not None and lhs_.get('kind') == 'DeclRefExpr':
+                member_bases.add(id(lhs_))
 
         def visit(n, facts, func):
             if n.get('kind') != 'DeclRefExpr' or id(n) in member_bases:
